@@ -204,6 +204,8 @@ def run(tier):
 
     tick_reschedule(rep, prog, ix, brec, B)
     tick_reschedule(rep, prog, ix, brec, B, block_due=False)
+    tick_reschedule(rep, prog, ix, brec, B, tx_slot=False)
+    tick_reschedule(rep, prog, ix, brec, B, block_due=False, tx_slot=False)
     block_enders(rep, prog, ix, brec, B)
 
     # ---- who may write Ni (all parsed units of this configuration)
@@ -390,7 +392,7 @@ def candidates(st, r, beta):
     return out
 
 
-def tick_reschedule(rep, prog, ix, brec, B, block_due=True):
+def tick_reschedule(rep, prog, ix, brec, B, block_due=True, tx_slot=True):
     """automata_tick, RepeatBand in Pausing, block timeout due: after the tick the Hello deadline must respect the count
     the tick has just computed (whatever else happened in the same tick, e.g. a Hello having been sent)."""
     from .automata_common import Automaton
@@ -430,7 +432,8 @@ def tick_reschedule(rep, prog, ix, brec, B, block_due=True):
     lt.cells[((), 0)] = (8, LTX)
     mk_obj(st, 'ext:netif', 1, kind='ext', default='unknown')
     po.cells[((), prec_.field('network_interface')[1])] = (W, ('ptr', 'ext:netif', ZERO))
-    po.cells[((), prec_.field('last_hello_tx_ms')[1])] = (W, ('ptr', 'in:last_tx', ZERO))
+    # (the slot for the last-transmit time is optional: ports without it still transmit - second pair of runs)
+    po.cells[((), prec_.field('last_hello_tx_ms')[1])] = (W, ('ptr', 'in:last_tx', ZERO) if tx_slot else ZERO)
     po.cells[((), prec_.field('send_hello')[1])] = (W, ('fn', 'send_hello'))
 
     def setup(I, st2):
@@ -446,8 +449,14 @@ def tick_reschedule(rep, prog, ix, brec, B, block_due=True):
     num, den = B['TXC'] * 20, 3 * B['GAMMA']
     nupd = 0
     rep.rule('R13.9', 'the tick never counts a Hello as heard: on every path it leaves r as it was, or resets it where a block ends (own transmissions are not load)', floor=2)
+    rep.rule('R13.11', 'enumeration has begun once the responder\'s own Hello is out: a tick that transmits it leaves `begun` set, with or without the optional last-transmit slot of the port', floor=1)
     for s2, v in outs:
         b2 = s2.objs[bext[1]]
+        if any(x[0] == 'indirect' for x in s2.trace):
+            bg2 = s2.dom(s2.canon(mem.load_scalar(s2, b2, C(off('begun')), ix.parse_type('unsigned char'))))
+            rep.check(bg2.lo >= 1, 'R13.11', 'tick|begun-after-send%s%s' % ('' if tx_slot else '|no-slot', '' if block_due else '|no-block-end'),
+                      'a tick transmits the responder\'s own Hello%s but leaves begun = %s: the blocks that follow are not counted (the back-off formula is never applied)'
+                      % ('' if tx_slot else ' (port without a last-transmit slot)', bg2), function='automata_tick', file=fnf)
         bt2 = s2.canon(mem.load_scalar(s2, b2, C(off('block_timeout_ts')), ix.parse_type('unsigned long long')))
         r2 = s2.canon(mem.load_scalar(s2, b2, C(off('r')), ix.parse_type('unsigned int')))
         sent_ = any(x[0] == 'indirect' for x in s2.trace)
